@@ -542,7 +542,7 @@ def run_c10_endings_case(res: dict, rng: random.Random, seed: Any):
             'ending': ending_,
             'gap': rng.choice([0.0, 0.01, 0.5]),
             # when the task running disconnect() is cancelled: after k loop steps or d seconds
-            'cancel_after': rng.choice([['y', 0], ['y', 1], ['y', 2], ['y', 3], ['y', 5], ['t', 0.02], ['t', 0.2]]),
+            'cancel_after': rng.choice([['y', k] for k in range(0, 11)] + [['t', 0.02], ['t', 0.07], ['t', 0.2]]),
         })
     # an application listener for connection state changes that suspends (listeners are public API): none,
     # k loop steps, or a sleep
